@@ -36,14 +36,37 @@ func (h *hostObj) Hash() (uint32, error) { return 7, nil }
 
 var errCannot = errors.New("cannot")
 
-func hostPickler(x starlark.Value) (string, string, starlark.Tuple, error) {
-	if h, ok := x.(*hostObj); ok {
-		return "test", "Obj", h.args, nil
+// recMark is what a re-entrant visit of a host object decodes to (cf. dawn's environment
+// pickler, which pickles the inner visit of a self-referential function as a reference by name).
+type recMark struct{}
+
+func (*recMark) String() string        { return "rec" }
+func (*recMark) Type() string          { return "rec" }
+func (*recMark) Freeze()               {}
+func (*recMark) Truth() starlark.Bool  { return true }
+func (*recMark) Hash() (uint32, error) { return 9, nil }
+
+// newHostPickler returns the pickler for one encoding: a host object reached again while its
+// own arguments are being encoded (the encoder memoises it only afterwards) is pickled as a
+// placeholder, exactly like dawn's newEnvPickler does for recursive functions.
+func newHostPickler() func(x starlark.Value) (string, string, starlark.Tuple, error) {
+	visited := map[*hostObj]bool{}
+	return func(x starlark.Value) (string, string, starlark.Tuple, error) {
+		if h, ok := x.(*hostObj); ok {
+			if visited[h] {
+				return "test", "Rec", starlark.Tuple{}, nil
+			}
+			visited[h] = true
+			return "test", "Obj", h.args, nil
+		}
+		return "", "", nil, errCannot
 	}
-	return "", "", nil, errCannot
 }
 
 func hostUnpickler(module, name string, args starlark.Tuple) (starlark.Value, error) {
+	if module == "test" && name == "Rec" {
+		return &recMark{}, nil
+	}
 	if module != "test" || name != "Obj" {
 		return nil, fmt.Errorf("unknown %s.%s", module, name)
 	}
@@ -61,6 +84,7 @@ type codec struct {
 var codecs = []codec{
 	{"pickle", 1000, func(v starlark.Value) (starlark.Value, []byte, error, error) {
 		var buf bytes.Buffer
+		hostPickler := newHostPickler()
 		err := pickle.NewEncoder(&buf, pickle.PicklerFunc(func(x starlark.Value) (string, string, starlark.Tuple, error) {
 			m, n, a, e := hostPickler(x)
 			if e == errCannot {
@@ -77,6 +101,7 @@ var codecs = []codec{
 	}},
 	{"pickle-batch3", 3, func(v starlark.Value) (starlark.Value, []byte, error, error) {
 		var buf bytes.Buffer
+		hostPickler := newHostPickler()
 		err := pickle3.NewEncoder(&buf, pickle3.PicklerFunc(func(x starlark.Value) (string, string, starlark.Tuple, error) {
 			m, n, a, e := hostPickler(x)
 			if e == errCannot {
@@ -97,6 +122,7 @@ var codecs = []codec{
 
 type isoState struct {
 	fwd, rev map[any]any
+	open     map[*hostObj]bool // host objects whose arguments are being compared
 }
 
 func (s *isoState) alias(a, b any, path string) (seen bool, err error) {
@@ -116,6 +142,19 @@ func (s *isoState) alias(a, b any, path string) (seen bool, err error) {
 func (s *isoState) iso(a, b starlark.Value, path string) error {
 	if b == nil {
 		return fmt.Errorf("%s: decoded nil", path)
+	}
+	if h, ok := a.(*hostObj); ok {
+		if _, isMark := b.(*recMark); isMark {
+			// a placeholder is right exactly where the input refers to a host object from inside
+			// its own arguments
+			if s.open[h] {
+				return nil
+			}
+			return fmt.Errorf("%s: a host object that is not being rebuilt decoded as a recursion placeholder", path)
+		}
+		if s.open[h] {
+			return fmt.Errorf("%s: reference to a host object from inside its own arguments did not decode as the placeholder", path)
+		}
 	}
 	if reflect.TypeOf(a) != reflect.TypeOf(b) {
 		return fmt.Errorf("%s: type %T decoded as %T", path, a, b)
@@ -202,7 +241,10 @@ func (s *isoState) iso(a, b starlark.Value, path string) error {
 		if seen, err := s.alias(a, bh, path); seen || err != nil {
 			return err
 		}
-		return s.iso(a.args, bh.args, path+".args")
+		s.open[a] = true
+		err := s.iso(a.args, bh.args, path+".args")
+		delete(s.open, a)
+		return err
 	default:
 		return fmt.Errorf("%s: oracle does not know %T", path, a)
 	}
@@ -508,30 +550,13 @@ func allCases(thorough bool, c codec) []testCase {
 	// (6) aliasing graphs: three mutable containers with two reference slots each
 	kinds := [][3]string{{"list", "list", "list"}, {"dict", "list", "list"}, {"list", "dict", "dict"}, {"dict", "dict", "dict"}, {"list", "list", "host"}}
 	if !thorough {
-		kinds = kinds[:3]
+		kinds = [][3]string{kinds[0], kinds[1], kinds[4], {"host", "list", "list"}}
+	} else {
+		kinds = append(kinds, [3]string{"host", "list", "list"}, [3]string{"host", "dict", "host"})
 	}
 	for _, ks := range kinds {
 		for g := 0; g < 4096; g++ {
 			ks, g := ks, g
-			if ks[2] == "host" {
-				// a host object is rebuilt from its argument tuple, so it cannot be reachable from its own
-				// arguments (no pickle protocol can express that; recursion through functions is C08's)
-				ref := func(i, slot int) int { return g >> (uint(i)*4 + uint(slot)*2) & 3 }
-				reach := map[int]bool{}
-				var dfs func(i int)
-				dfs = func(i int) {
-					for slot := 0; slot < 2; slot++ {
-						if t := ref(i, slot); t < 3 && !reach[t] {
-							reach[t] = true
-							dfs(t)
-						}
-					}
-				}
-				dfs(2)
-				if reach[2] {
-					continue
-				}
-			}
 			add(fmt.Sprintf("alias graph %v #%d", ks, g), "aliasing", func() starlark.Value {
 				var objs [3]starlark.Value
 				for i, k := range ks {
@@ -647,7 +672,7 @@ func main() {
 			case derr != nil:
 				res = "decode error: " + derr.Error()
 			default:
-				st := &isoState{fwd: map[any]any{}, rev: map[any]any{}}
+				st := &isoState{fwd: map[any]any{}, rev: map[any]any{}, open: map[*hostObj]bool{}}
 				if err := st.iso(v, out, "$"); err != nil {
 					res = err.Error()
 				}
